@@ -504,6 +504,8 @@ class StmtMixin:
                             e = o.st
                             if step is not None:
                                 step(e)
+                            for hnt in spec.hints:
+                                e.assume(self.instantiate(hnt, e))
                             for k, inv in enumerate(spec.invariant):
                                 g = self.ev_spec(inv, e, old=st.old)
                                 self.oblige('inv-preserve', e, g, s.lineno, inv, tag=f'{tag}.{k}')
